@@ -6,7 +6,7 @@ import PyhfProofs.Properties.C16_Gen
 Same generated file as `C16_Gen` (`PyhfGen/Ws.lean`, regenerated on every C15 / C16 run by symbolic execution of `pyhf.Workspace`,
 `Workspace.model`, `Workspace.data` and `Model.logpdf` on a workspace whose yields, variations, uncertainties and observations are all
 symbolic).  For all real parameter values, all positive yields and arbitrary observed counts:
-reordering every list, renaming channels / samples / modifiers, splitting a sample into two with identical modifiers, adding a
+reordering every list, renaming channels / samples / modifiers, splitting a sample into two with identical modifiers, splitting a channel's bins into one-bin channels, adding a
 zero-yield sample, adding a shape systematic whose variations equal the nominal (up to its own constraint term), and scaling the
 signal templates by `k` while reading the signal strength as `μ/k` all leave the log-likelihood unchanged.
 -/
@@ -39,6 +39,13 @@ theorem gen_zero_sample_invariant :
     Gen.ws_ghost_logpdf realPrim lpois lnorm c0 clo chi s0 s1 slo shi b0 b1 e0 e1 oc0 os0 os1 sa0 sa1 sb0 sb1 k_bkg mu sysA stat0 stat1 nullsys
       = Gen.ws_base_logpdf realPrim lpois lnorm c0 clo chi s0 s1 slo shi b0 b1 e0 e1 oc0 os0 os1 sa0 sa1 sb0 sb1 k_bkg mu sysA stat0 stat1 nullsys := by
   unfold Gen.ws_ghost_logpdf Gen.ws_base_logpdf; ws_eq
+
+set_option maxHeartbeats 3200000 in
+/-- **splitting a channel**: the two bins of SR as two one-bin channels (each with its own MC-statistical modifier for its bin) -/
+theorem gen_channel_split_invariant :
+    Gen.ws_chsplit_logpdf realPrim lpois lnorm c0 clo chi s0 s1 slo shi b0 b1 e0 e1 oc0 os0 os1 sa0 sa1 sb0 sb1 k_bkg mu sysA stat0 stat1 nullsys
+      = Gen.ws_base_logpdf realPrim lpois lnorm c0 clo chi s0 s1 slo shi b0 b1 e0 e1 oc0 os0 os1 sa0 sa1 sb0 sb1 k_bkg mu sysA stat0 stat1 nullsys := by
+  unfold Gen.ws_chsplit_logpdf Gen.ws_base_logpdf; ws_eq
 
 set_option maxHeartbeats 3200000 in
 /-- **null systematic**: a correlated-shape systematic whose variations equal the nominal only adds its own constraint term,
